@@ -52,10 +52,19 @@ pub fn show_prefix(p: Option<SIPrefix>) -> String {
     }
 }
 
+/// format flags:  fill(code point) align(- < > ^) plus(0/1) zero(0/1) width|- precision|-
+pub fn fmt_with<T: std::fmt::Display>(f: &[&str], x: T) -> String {
+    let opt = |s: &str| if s == "-" { None } else { Some(s.parse::<usize>().unwrap()) };
+    match crate::fmtgen::fmt_any(f[0].parse().unwrap(), f[1].chars().next().unwrap(), f[2] == "1", f[3] == "1", opt(f[4]), opt(f[5]), x) {
+        Some(s) => cps(&s),
+        None => "UNSUPPORTED".to_string(),
+    }
+}
+
 /// operations every quantity type supports
 pub fn do_common<Q>(op: &str, a: &[&str]) -> Option<String>
 where
-    Q: Quantity + Mul<AmountT, Output = Q> + Div<AmountT, Output = Q>,
+    Q: Quantity + Mul<AmountT, Output = Q> + Div<AmountT, Output = Q> + std::fmt::Display,
     AmountT: Mul<Q, Output = Q> + Mul<Q::UnitType, Output = Q>,
     Q::UnitType: Mul<AmountT, Output = Q>,
 {
@@ -74,6 +83,8 @@ where
         "from_symbol" => show_ou::<Q>(<Q::UnitType as Unit>::from_symbol(&uncps(a.get(0).copied().unwrap_or("")))),
         "unit_from_symbol" => show_ou::<Q>(Q::unit_from_symbol(&uncps(a.get(0).copied().unwrap_or("")))),
         "as_qty" => show_q::<Q>(unit_at::<Q>(a[0]).as_qty()),
+        "fmt" => fmt_with(&a[2..8], qty::<Q>(a[0], a[1])),
+        "ufmt" => fmt_with(&a[1..7], unit_at::<Q>(a[0])),
         _ => return None,
     })
 }
@@ -191,7 +202,7 @@ pub fn do_rate_basic<TQ: Quantity, PQ: Quantity>(op: &str, a: &[&str]) -> Option
 pub fn ref_type<Q>(op: &str, a: &[&str]) -> String
 where
     Q: HasRefUnit + PartialEq + PartialOrd + Add<Q, Output = Q> + Sub<Q, Output = Q> + Div<Q, Output = AmountT>
-        + Mul<AmountT, Output = Q> + Div<AmountT, Output = Q>,
+        + Mul<AmountT, Output = Q> + Div<AmountT, Output = Q> + std::fmt::Display,
     Q::UnitType: LinearScaledUnit + Mul<AmountT, Output = Q>,
     AmountT: Mul<Q, Output = Q> + Mul<Q::UnitType, Output = Q>,
 {
@@ -206,7 +217,7 @@ where
 pub fn noref_type<Q>(op: &str, a: &[&str]) -> String
 where
     Q: Quantity + PartialEq + PartialOrd + Add<Q, Output = Q> + Sub<Q, Output = Q> + Div<Q, Output = AmountT>
-        + Mul<AmountT, Output = Q> + Div<AmountT, Output = Q>,
+        + Mul<AmountT, Output = Q> + Div<AmountT, Output = Q> + std::fmt::Display,
     Q::UnitType: Mul<AmountT, Output = Q>,
     AmountT: Mul<Q, Output = Q> + Mul<Q::UnitType, Output = Q>,
 {
@@ -219,7 +230,7 @@ where
 
 pub fn single_type<Q>(op: &str, a: &[&str]) -> String
 where
-    Q: Quantity + Add<Q, Output = Q> + Sub<Q, Output = Q> + Div<Q, Output = AmountT> + Mul<AmountT, Output = Q> + Div<AmountT, Output = Q>,
+    Q: Quantity + Add<Q, Output = Q> + Sub<Q, Output = Q> + Div<Q, Output = AmountT> + Mul<AmountT, Output = Q> + Div<AmountT, Output = Q> + std::fmt::Display,
     Q::UnitType: Mul<AmountT, Output = Q>,
     AmountT: Mul<Q, Output = Q> + Mul<Q::UnitType, Output = Q>,
 {
